@@ -186,7 +186,7 @@ class C13(core.Check):
         'chosen:variant>=2', 'chosen:specific', 'expect:ACCEPT', 'expect:REJECT',
         'later-candidate-after-nonaccepting-earlier', 'amb:disallowed-pair-mirrored-is-allowed', 'amb:two-specific-entries-accept',
         'amb:key-vs-relative-address', 'amb:decorated-register-vs-numeric', 'amb:implied-operand-entry-vs-shorter-variant',
-        'amb:out-of-range-literal-with-later-accepting-candidate']}
+        'amb:out-of-range-literal-with-later-accepting-candidate', 'primer:earlier-statement-took-a-later-variant']}
 
     def gen_isa(self, rng, force_empty=False):
         pool = alt_pool(rng)
@@ -462,7 +462,37 @@ class C13(core.Check):
                 mn = rng.choice(['Amb', 'aMb', 'amB'])
                 tags.add('mnemonic:mixed')
             text = mn + (' ' + ', '.join(o['text'] for o in operands) if operands else '')
-            src = ''.join(f'{k} = {v}\n' for k, v in LABELS.items()) + f'.org {addr}\n{text}\n.byte $EE\n'
+            # a primer: an earlier statement of the same mnemonic that a LATER variant takes - which variant a statement gets
+            # never depends on the statements before it
+            primer = ''
+            vs_all = encode.variants_of(isa, 'amb')
+            if len(vs_all) >= 2 and (i % 3 == 0 or rng.random() < 0.3):
+                for _try in range(6):
+                    pv = rng.randrange(1, len(vs_all))
+                    pops_ = vs_all[pv].get('operands') or {}
+                    p_operands = []
+                    for k_ in range(pops_.get('count', 0)):
+                        confs_ = []
+                        if 'operand_sets' in pops_:
+                            confs_ = list(isa['operand_sets'][pops_['operand_sets']['list'][k_]]['operand_values'].values())
+                        elif 'specific_operands' in pops_:
+                            confs_ = [list(e_['list'].values())[k_] for e_ in pops_['specific_operands'].values() if len(e_['list']) > k_]
+                        cand_ = [t for t in texts if any(c_['type'] != 'empty' and accepts('x', c_, t, 0) is not None for c_ in confs_)]
+                        if cand_:
+                            p_operands.append(rng.choice(cand_))
+                    pk, pstmt, pinfo = self.model(isa, p_operands, 0x400)
+                    if pk != 'ACCEPT' or any(op_.get('undefined') or (op_.get('index') or {}).get('undefined') for op_ in pstmt['ops']):
+                        continue
+                    try:
+                        encode.encode(isa, pstmt, 0x400, zt)
+                    except (encode.Reject, encode.DontCare):
+                        continue
+                    if int(pinfo['chosen'][1]) < 1:
+                        continue
+                    primer = '.org $400\namb' + (' ' + ', '.join(o_['text'] for o_ in p_operands) if p_operands else '') + '\n'
+                    tags.add('primer:earlier-statement-took-a-later-variant')
+                    break
+            src = ''.join(f'{k} = {v}\n' for k, v in LABELS.items()) + primer + f'.org {addr}\n{text}\n.byte $EE\n'
             fn, itext = isamod.render_isa(isa, 'json')
             tags.add('expect:' + kind)
             ntk = None
